@@ -1,6 +1,12 @@
 package props
 
-import "fmt"
+import (
+	"fmt"
+	"strings"
+	"time"
+
+	"verif/harness/rig"
+)
 
 func init() {
 	register(&Property{
@@ -26,8 +32,96 @@ func init() {
 				bs = append(bs, Batch{Name: fmt.Sprintf("seq-%d", i), Kind: "synctest", Race: true, Weight: 1,
 					Args: map[string]string{"test": "TestC10", "part": fmt.Sprint(i), "parts": fmt.Sprint(n)}})
 			}
+			// real time: the penalty is the client's, not the connection's - it is still owed after a reconnect
+			bs = append(bs, Batch{Name: "reconnect-realtime", Args: map[string]string{"mode": "reconnect"}, Race: true, Procs: 4, Weight: 1})
+			// the same under the timer-channel semantics a main module declaring go < 1.23 gets (the library's own
+			// go.mod says 1.13): timers that were reset or abandoned may still deliver a stale tick there
+			bs = append(bs, Batch{Name: "reconnect-realtime-oldtimers", Args: map[string]string{"mode": "reconnect", "godebug": "asynctimerchan=1"}, Race: true, Procs: 4, Weight: 1})
 			return bs
 		},
-		Run: func(c *Ctx) {},
+		Run: runC10Reconnect,
 	})
+}
+
+// runC10Reconnect (real time, a handful of rounds of ~9 s): a connection is closed while a line is being held back, the
+// client stays quiet until that hold would have ended, and connects again. The penalty has decayed in real time
+// meanwhile and nothing else: whenever the arithmetic over the *measured* instants says it is still above 10 s by a
+// clear margin when the new registration's first line is charged, that line is held for its own charge.
+func runC10Reconnect(c *Ctx) {
+	if c.Arg("mode", "") != "reconnect" {
+		return
+	}
+	rounds := c.Pick(2, 8)
+	for idx := 0; idx < rounds; idx++ {
+		if !c.Want("reconnect", idx) {
+			continue
+		}
+		r := rig.Rand(c.Seed, "C10reconnect", idx)
+		n := 380 + r.Intn(100)
+		c.J.Log("CASE %s len=%d", Case("reconnect", idx), n)
+		s := NewSession(SessionOpts{Flood: false}) // flood protection on
+		created := time.Now()
+		mc, err := s.Connect()
+		if err != nil || !AwaitRegistration(mc) {
+			c.R.Inconcl("connect failed")
+			return
+		}
+		charge := func(l int) time.Duration { return 2*time.Second + time.Duration(l)*time.Second/120 }
+		var pen time.Duration
+		for _, l := range mc.Lines() {
+			pen += charge(len(l))
+		}
+		line := strings.Repeat("x", n)
+		s.Conn.Raw(line) // written at once (penalty below 10 s), the next one is held
+		s.Conn.Raw(line)
+		if !mc.WaitLines(WaitLong, func(ls []string) bool { return len(ls) >= 3 }) {
+			c.R.Inconcl("third line not seen")
+			return
+		}
+		w := mc.Writes()
+		t1 := w[len(w)-1].T // the second Raw line is charged right after this write
+		pen = pen - t1.Sub(created) + charge(n)
+		if pen < 0 {
+			pen = 0
+		}
+		pen += charge(n) // the held line: the sender sleeps now
+		time.Sleep(300 * time.Millisecond)
+		if !CloseWatched(s.Conn) {
+			c.R.Inconcl("Close did not return")
+			return
+		}
+		// stay quiet until well after the aborted hold would have ended
+		time.Sleep(charge(n) + 700*time.Millisecond - 300*time.Millisecond)
+		mc2, err := s.Connect()
+		t2 := time.Now()
+		if err != nil {
+			c.R.Inconcl("reconnect failed: " + err.Error())
+			return
+		}
+		nickCharge := charge(len("NICK me"))
+		penAtNick := pen - t2.Sub(t1) + nickCharge
+		if !mc2.WaitLines(WaitLong, func(ls []string) bool { return len(ls) >= 1 }) {
+			c.R.Inconcl("no line on the new connection")
+			return
+		}
+		wrote := mc2.Writes()[0].T
+		c.R.Eval(1)
+		delay := wrote.Sub(t2)
+		switch {
+		case penAtNick > 10*time.Second+400*time.Millisecond:
+			c.R.Class("reconnect|penalty-still-above-threshold")
+			if delay < nickCharge-300*time.Millisecond {
+				c.R.Violate(rig.Violation{Sig: "c10|not-held-after-reconnect", Detail: fmt.Sprintf("a connection was closed during a hold; %.2f s later the client reconnected with a penalty of about %.2f s (> 10 s) and wrote the first registration line after %.3f s instead of holding it for its charge of %.3f s", t2.Sub(t1).Seconds(), penAtNick.Seconds(), delay.Seconds(), nickCharge.Seconds()), Case: Case("reconnect", idx)})
+			}
+		case penAtNick < 10*time.Second-400*time.Millisecond:
+			c.R.Class("reconnect|penalty-below-threshold")
+			if delay > time.Second {
+				c.R.Violate(rig.Violation{Sig: "c10|held-below-threshold-after-reconnect", Detail: fmt.Sprintf("the client reconnected with a penalty of about %.2f s (< 10 s) and still delayed its first line by %.3f s", penAtNick.Seconds(), delay.Seconds()), Case: Case("reconnect", idx)})
+			}
+		default:
+			c.R.Count("reconnect_rounds_too_close_to_the_threshold_to_judge", 1)
+		}
+		go s.Conn.Close()
+		s.Release()
+	}
 }
